@@ -448,6 +448,46 @@ func runStripRebuilds(rr *RuleRun) {
 		}
 		return true
 	})
+	// a helper of the package that returns a fresh container filled by recursive results (the member loop
+	// of the tuple / object branch moved into a function of its own)
+	helperFills := func(e ast.Expr) bool {
+		call, ok := ast.Unparen(e).(*ast.CallExpr)
+		if !ok {
+			return false
+		}
+		f := callee(info, call)
+		if f == nil || f.Pkg() == nil || shortPkg(f.Pkg()) != "cty" {
+			return false
+		}
+		hd := c.Decl("cty", funcDeclKey(f))
+		if hd == nil || hd.Body == nil || hd == fd {
+			return false
+		}
+		hfilled := map[types.Object]bool{}
+		ast.Inspect(hd.Body, func(n ast.Node) bool {
+			as, ok := n.(*ast.AssignStmt)
+			if !ok || len(as.Lhs) != 1 || len(as.Rhs) != 1 || !isRec(as.Rhs[0]) {
+				return true
+			}
+			if ix, ok := as.Lhs[0].(*ast.IndexExpr); ok {
+				if o := objOf(info, ix.X); o != nil {
+					hfilled[o] = true
+				}
+			}
+			return true
+		})
+		okAll, n := true, 0
+		ast.Inspect(hd.Body, func(n2 ast.Node) bool {
+			if ret, ok := n2.(*ast.ReturnStmt); ok && len(ret.Results) == 1 {
+				n++
+				if o := objOf(info, ret.Results[0]); o == nil || !hfilled[o] {
+					okAll = false
+				}
+			}
+			return true
+		})
+		return n > 0 && okAll
+	}
 	want := map[string]bool{"cty.List": false, "cty.Map": false, "cty.Set": false, "cty.Tuple": false, "cty.Object": false}
 	ast.Inspect(fd.Body, func(n ast.Node) bool {
 		call, ok := n.(*ast.CallExpr)
@@ -470,6 +510,9 @@ func runStripRebuilds(rr *RuleRun) {
 			want[k] = true
 		case objOf(info, a) != nil && filled[objOf(info, a)]:
 			rr.OK(key, call.Pos(), "rebuilt from a fresh container filled by recursive results")
+			want[k] = true
+		case helperFills(a):
+			rr.OK(key, call.Pos(), "rebuilt from the result of a helper that fills a fresh container with recursive results")
 			want[k] = true
 		default:
 			rr.Violation(key, call.Pos(), "compound type rebuilt from "+exprStr(a)+", which does not come from the recursive stripping of its members")
